@@ -95,11 +95,14 @@ impl<R: Read> ChunkedChars<R> {
         // Read exactly one UTF-8 codepoint (1..=4 bytes) from the underlying reader.
         // No internal buffering: rely on the outer BufReader and decoder.
         let mut buf = [0u8; 4];
-        // Read first byte
-        if let Err(e) = self.reader.read_exact(&mut buf[..1]) {
-            match e.kind() {
-                io::ErrorKind::UnexpectedEof => return None, // true EOF
-                _ => {
+        // Read first byte. Only a read of zero bytes is the end of input: an error of kind
+        // `UnexpectedEof` reported by the reader itself (a cut compressed stream, say) is a failure.
+        loop {
+            match self.reader.read(&mut buf[..1]) {
+                Ok(0) => return None, // true EOF
+                Ok(_) => break,
+                Err(e) if e.kind() == io::ErrorKind::Interrupted => continue,
+                Err(e) => {
                     self.err.replace(Some(e));
                     return None;
                 }
